@@ -109,6 +109,9 @@ def settle_far(case: dict, far_place, far_post) -> dict:
                 for okey in ("origin", "sorigin"):
                     if okey in case[key]:
                         case[key][okey] = (np.array(case["place"]["o"]) + np.array(case[key][okey])).tolist()
+                if case[key].get("mirror"):
+                    mo = case[key]["mirror"]
+                    mo["origin"] = (np.array(case["place"]["o"]) + np.array(mo["origin"])).tolist()
     if far_post is not None:
         case["post"]["t"] = (rm.unit(far_post["dir"]) * far_post["ratio"] * r).tolist()
         case["post"]["far"] = far_post["ratio"]
@@ -196,15 +199,22 @@ class Spec:
         # (origin, axis, angle): every vertex whose image under this rotation is a vertex is joined to it by an arc
         # about that axis (side edges of revolved shapes and stacks)
         self.revolves: List[Tuple[np.ndarray, np.ndarray, float]] = []
+        # (world -> canonical 4x4 map, predicate on canonical points, in-plane tolerance): a curved edge joining two
+        # vertices of such a boundary curve has all its control points on it
+        self.outlines: List[Tuple[np.ndarray, Callable[[np.ndarray], bool], float]] = []
 
     def transform(self, P: np.ndarray) -> None:
         """maps the ground truth with the similarity P = rigid motion x uniform scaling (the entities are moved
         separately, by the library)"""
-        k = float(np.cbrt(np.linalg.det(P[:3, :3])))
+        det = float(np.linalg.det(P[:3, :3]))
+        k = abs(det) ** (1.0 / 3.0)
         udir = lambda v: rm.unit(rm.apply_dir(P, v))  # noqa: E731
+        Pinv_ = np.linalg.inv(P)
+        self.outlines = [(B @ Pinv_, pred, tol) for B, pred, tol in self.outlines]
         for c in self.circles:
             c.c, c.n, c.r = rm.apply(P, c.c), udir(c.n), c.r * k
-        self.revolves = [(rm.apply(P, o), udir(a), ang) for o, a, ang in self.revolves]
+        # a reflection reverses the sense of a rotation about the mapped axis
+        self.revolves = [(rm.apply(P, o), udir(a), ang if det > 0 else -ang) for o, a, ang in self.revolves]
         self.size *= k
         ex = self.extra
         if "sphere" in ex:
@@ -223,12 +233,12 @@ class Spec:
 
 
 @st.composite
-def post_transforms(draw, resize_mostly: bool = False):
+def post_transforms(draw, resize_mostly: bool = False, mirror: str = "some"):
     """None, or a motion applied to the *built* entity with the library's rotate / scale / translate: rotation about a
     general axis through a general origin (never parallel to a coordinate axis), in half of the cases a uniform scaling
     by 0.3 .. 3 about another general origin, then a translation"""
     # resize_mostly (start shapes of chains): absent 1 in 3, scaled 3 in 4 of the rest
-    if draw(st.sampled_from([False, False, True] if resize_mostly else [True, False])):
+    if mirror != "always" and draw(st.sampled_from([False, False, True] if resize_mostly else [True, False])):
         return None
     k = draw(st.integers(0, 2))
     ax = [draw(st.floats(0.15, 1.0)) * draw(st.sampled_from([-1.0, 1.0])) for _ in range(3)]
@@ -244,6 +254,12 @@ def post_transforms(draw, resize_mostly: bool = False):
         # 0.33 .. 0.85 or 1.18 .. 3: never (nearly) 1
         post["scale"] = 3.0 ** (draw(st.floats(0.15, 1.0)) * draw(st.sampled_from([1.0, -1.0])))
         post["sorigin"] = [draw(st.floats(-5.0, 5.0)) for _ in range(3)]
+    if mirror == "always" or (mirror == "some" and draw(st.sampled_from([False, False, True]))):
+        # reflection in a general plane (entity.mirror(normal, origin))
+        km = draw(st.integers(0, 2))
+        nm = [draw(st.floats(0.15, 1.0)) * draw(st.sampled_from([-1.0, 1.0])) for _ in range(3)]
+        nm[km] = draw(st.sampled_from([-1.0, 1.0]))
+        post["mirror"] = {"normal": nm, "origin": [draw(st.floats(-5.0, 5.0)) for _ in range(3)]}
     return post
 
 
@@ -253,6 +269,8 @@ def post_matrix(post) -> np.ndarray:
     P = rm.m_rotate(post["angle"], post["axis"], post["origin"])
     if post.get("scale"):
         P = rm.m_scale(post["scale"], post["sorigin"]) @ P
+    if post.get("mirror"):
+        P = rm.m_mirror(post["mirror"]["normal"], post["mirror"]["origin"]) @ P
     return rm.m_translate(post["t"]) @ P
 
 
@@ -264,6 +282,8 @@ def move_entity(entity, post) -> None:
     entity.rotate(post["angle"], post["axis"], post["origin"])
     if post.get("scale"):
         entity.scale(post["scale"], post["sorigin"])
+    if post.get("mirror"):
+        entity.mirror(post["mirror"]["normal"], post["mirror"]["origin"])
     entity.translate(post["t"])
 
 
@@ -322,11 +342,15 @@ def sketch_params(draw, kind: str):
         p["aspect"] = draw(st.floats(0.3, 3.0))
         p["p1"] = draw(grid_corners())
     elif "Spline" in kind:
-        shape = draw(st.sampled_from(["circle", "ellipse", "oval", "oval1"]))
+        # circle / ellipse: no straight sides; oval, oval1: two / one straight sides and different corner radii;
+        # stadium, rounded: one / two straight sides and EQUAL corner radii (corners are quarter circles)
+        shape = draw(st.sampled_from(["circle", "ellipse", "oval", "oval1", "stadium", "rounded"]))
         p["shape"] = shape
         p["a2"] = 1.0 if shape == "circle" else draw(st.floats(0.5, 2.0))  # second half-axis / first
-        p["s1"] = draw(st.floats(0.1, 0.6)) if shape in ("oval", "oval1") else 0.0  # straight part / half-axis
-        p["s2"] = draw(st.floats(0.1, 0.6)) if shape == "oval" else 0.0
+        p["s1"] = draw(st.floats(0.1, 0.6)) if shape in ("oval", "oval1", "stadium", "rounded") else 0.0  # straight / half-axis
+        p["s2"] = draw(st.floats(0.1, 0.6)) if shape in ("oval", "rounded") else 0.0
+        if shape in ("stadium", "rounded"):
+            p["a2"] = (1.0 - p["s1"]) / (1.0 - p["s2"])  # r_1 = a1 (1 - s1) equals r_2 = a2 (1 - s2)
         if "Ring" in kind:
             p["w1"] = draw(st.floats(0.1, 0.5))
             p["w2"] = p["w1"] if shape == "circle" else draw(st.floats(0.1, 0.5))
@@ -360,6 +384,8 @@ class SketchTruth:
         self.size = 1.0
         self.circles: List[Tuple[np.ndarray, float, int]] = []  # canonical centre, radius, arcs
         self.on_rim: Optional[Callable[[np.ndarray], bool]] = None  # canonical point -> on the outer boundary
+        # boundary curves along which the blocking puts curved edges (outer boundary; inner one for rings)
+        self.outlines: List[Callable[[np.ndarray], bool]] = []
         self.two_tier = False
 
 
@@ -438,7 +464,7 @@ def make_sketch(p: dict, place):
             y = abs(float(q @ u2))
             ex = max(x - s1, 0.0) / h1
             ey = max(y - s2, 0.0) / h2
-            return abs(math.hypot(ex, ey) - 1.0) <= 1e-6
+            return abs(math.hypot(ex, ey) - 1.0) <= 1e-5  # relative to the corner radius; 8 printed decimals
 
         if "Ring" in kind:
             w1 = p["w1"] * a1
@@ -449,6 +475,7 @@ def make_sketch(p: dict, place):
             if circular:
                 t.circles = [(np.zeros(3), a1, 2 * quad), (np.zeros(3), a1 + w1, 2 * quad)]
             t.on_rim = lambda q: rounded(q, r1 + w1, r2 + w2)
+            t.outlines = [t.on_rim, lambda q: rounded(q, r1, r2)]
         else:
             cls = {"QuarterSplineDisk": cb.QuarterSplineDisk, "HalfSplineDisk": cb.HalfSplineDisk,
                    "SplineDisk": cb.SplineDisk}[kind]
@@ -461,6 +488,8 @@ def make_sketch(p: dict, place):
     else:  # pragma: no cover
         raise ValueError(kind)
     t.points, t.faces = SKETCH_TOPO[kind]
+    if not t.outlines and kind != "WrappedDisk":
+        t.outlines = [t.on_rim]
     return sk, t
 
 
@@ -639,6 +668,32 @@ def check_revolve_arcs(dec: Decoded, revolves, size: float, facts: dict) -> int:
             ang_of = lambda u, v: math.acos(max(-1.0, min(1.0, float(u @ v) / (np.linalg.norm(u) * np.linalg.norm(v)))))  # noqa: E731
             if abs(ang_of(rad_i, rad_p) + ang_of(rad_p, rad_j) - ang_of(rad_i, rad_j)) > 1e-4:
                 raise Violation("arc-wrong-side", f"side arc {i}-{j}: third point is not between the end points", **facts)
+    return checked
+
+
+def check_outlines(dec: Decoded, outlines, facts: dict) -> int:
+    """every curved edge (arc, spline, polyLine) that joins two vertices of an intended boundary curve has all its
+    control points on that curve"""
+    checked = 0
+    for e in dec.bmd.edges:
+        if e.kind == "arc" and isinstance(e.payload, tuple) and len(e.payload) == 3:
+            pts = [e.payload]
+        elif e.kind in ("spline", "polyLine", "BSpline"):
+            pts = e.payload
+        else:
+            continue
+        for B, pred, ztol in outlines:
+            def on(p, B=B, pred=pred, ztol=ztol):
+                q = rm.apply(B, np.asarray(p, float))
+                return abs(q[2]) <= ztol and pred(q)
+
+            if on(dec.pos[e.a]) and on(dec.pos[e.b]):
+                checked += 1
+                off = [p for p in pts if not on(p)]
+                if off:
+                    raise Violation("edge-off-outline", f"{e.kind} {e.a}-{e.b} joins two points of the outline but "
+                                    f"{len(off)} of its {len(pts)} control points leave it", edge_kind=e.kind, **facts)
+                break
     return checked
 
 
@@ -937,6 +992,10 @@ def build_sketch_shape(sp: dict, q: dict, place) -> Spec:
         for cc, rr, na in truth.circles:
             s.circles.append(Circle(rm.apply(T, W(M, cc)), rm.apply_dir(T, n), rr * k, na))
     s.extra.update(shape=shape, sketch=sketch, truth=truth, maps=maps)
+    Minv = np.linalg.inv(M)
+    for T in maps:
+        for pred in truth.outlines:
+            s.outlines.append((Minv @ np.linalg.inv(T), pred, 1e-6 * truth.size + 5e-8))
     if q["how"] == "revolve":
         e = D(M, polar(1.0, q["psi"]))
         s.revolves = [(W(M, sketch_origin(sp)) + e * q["bend"] * sketch_extent(sp), np.cross(n, e), q["angle"])]
